@@ -492,6 +492,8 @@ type c07Case struct {
 	GI     *vgGISpec    `json:"gi,omitempty"`
 	Local  *vgLocalSpec `json:"local,omitempty"`
 	SP     *vgSPSpec    `json:"sp,omitempty"`
+	BA     *vgBASpec    `json:"ba,omitempty"`
+	EC     *vgECSpec    `json:"ec,omitempty"`
 	Corpus string       `json:"corpus,omitempty"`
 	PkgID  string       `json:"pkg,omitempty"`
 	Source string       `json:"source,omitempty"`
@@ -557,12 +559,18 @@ func c07RunLocal(res *vx.Result, st *c07Stats, l *vgLocalSpec) {
 func c07RunSource(res *vx.Result, st *c07Stats, key, src string, s *vgSpec, gi *vgGISpec, lo ...any) {
 	var local *vgLocalSpec
 	var sp *vgSPSpec
+	var ba *vgBASpec
+	var ec *vgECSpec
 	for _, x := range lo {
 		switch x := x.(type) {
 		case *vgLocalSpec:
 			local = x
 		case *vgSPSpec:
 			sp = x
+		case *vgBASpec:
+			ba = x
+		case *vgECSpec:
+			ec = x
 		}
 	}
 	c, errs := vgCheck("p", []vgSrcFile{{"p.go", src}}, nil)
@@ -581,7 +589,7 @@ func c07RunSource(res *vx.Result, st *c07Stats, key, src string, s *vgSpec, gi *
 			panic(err)
 		}
 	}); msg != "" {
-		res.Violate("panic|"+key, "unused.Analyzer panicked/failed on a well-typed package: "+msg+"\n"+src, c07Case{Spec: s, GI: gi, Local: local, SP: sp, Source: src})
+		res.Violate("panic|"+key, "unused.Analyzer panicked/failed on a well-typed package: "+msg+"\n"+src, c07Case{Spec: s, GI: gi, Local: local, SP: sp, BA: ba, EC: ec, Source: src})
 		return
 	}
 	res.Eval(1)
@@ -602,7 +610,7 @@ func c07RunSource(res *vx.Result, st *c07Stats, key, src string, s *vgSpec, gi *
 			res.Unassert("zero-reference alias " + m.Name + " not reported in " + key + " (an alias is not a named type in the statement's wording)")
 			continue
 		}
-		res.Violate("zeroref|"+m.Kind+"_"+m.Name+"|"+key, msg, c07Case{Spec: s, GI: gi, Local: local, SP: sp, Source: src})
+		res.Violate("zeroref|"+m.Kind+"_"+m.Name+"|"+key, msg, c07Case{Spec: s, GI: gi, Local: local, SP: sp, BA: ba, EC: ec, Source: src})
 	}
 	// supplement (DESIGN C07, rule 10.1): a generated iota group is reported as a whole or not at all;
 	// with the carried-over expression list a partial deletion would still type-check.
@@ -621,7 +629,7 @@ func c07RunSource(res *vx.Result, st *c07Stats, key, src string, s *vgSpec, gi *
 		}
 		if ra != rb {
 			res.Violate("constgroup|"+key, fmt.Sprintf("constant group (%s, %s) is reported in part only (%s reported=%v, %s reported=%v)\n%s",
-				s.name(i), s.grpB(i), s.name(i), ra, s.grpB(i), rb, src), c07Case{Spec: s, GI: gi, Local: local, SP: sp, Source: src})
+				s.name(i), s.grpB(i), s.name(i), ra, s.grpB(i), rb, src), c07Case{Spec: s, GI: gi, Local: local, SP: sp, BA: ba, EC: ec, Source: src})
 		}
 	}
 	// oracle 1
@@ -638,7 +646,7 @@ func c07RunSource(res *vx.Result, st *c07Stats, key, src string, s *vgSpec, gi *
 	if errs := c07Recheck("p", del.Sources, nil, "go1.26"); len(errs) > 0 {
 		msg := fmt.Sprintf("after removing every object U1000 reports (%s) the package no longer type-checks: %s\n--- package ---\n%s\n--- after deletion ---\n%s",
 			strings.Join(vgUnusedSet(ur), ", "), strings.Join(errs, "; "), src, del.Sources[0].Src)
-		res.Violate("deletion|"+key, msg, c07Case{Spec: s, GI: gi, Local: local, SP: sp, Source: src})
+		res.Violate("deletion|"+key, msg, c07Case{Spec: s, GI: gi, Local: local, SP: sp, BA: ba, EC: ec, Source: src})
 	}
 }
 
@@ -856,6 +864,10 @@ func TestVerifC07(t *testing.T) {
 		}
 		if cs.Spec != nil {
 			c07RunSpec(res, st, cs.Spec)
+		} else if cs.BA != nil {
+			c07RunSource(res, st, cs.BA.Key(), cs.BA.Source(), nil, nil, cs.BA)
+		} else if cs.EC != nil {
+			c07RunSource(res, st, cs.EC.Key(), vgFileText("p", cs.EC.Decls()), nil, nil, cs.EC)
 		} else if cs.SP != nil {
 			c07RunSP(res, st, cs.SP)
 		} else if cs.Local != nil {
@@ -875,7 +887,7 @@ func TestVerifC07(t *testing.T) {
 	res.SetBudget(vx.Budget(100*time.Second, 17*time.Minute))
 	cpu0 := vgCPU()
 	b := c07Bounds()
-	var sampleN, giDone, localDone, spDone atomic.Int64
+	var sampleN, giDone, localDone, spDone, baDone, ecDone atomic.Int64
 	part := os.Getenv("VERIF_C07_PART") // development aid: "gen" or "corpora"; empty = everything
 	if part == "corpora" {
 		b.MaxN = 1
@@ -942,6 +954,15 @@ func TestVerifC07(t *testing.T) {
 			c07RunSP(res, st, sp)
 			spDone.Add(1)
 		}
+		// fifth and sixth family (small; sequential)
+		for _, x := range vgBAEnumerate() {
+			c07RunSource(res, st, x.Key(), x.Source(), nil, nil, x)
+			baDone.Add(1)
+		}
+		for _, x := range vgECEnumerate() {
+			c07RunSource(res, st, x.Key(), vgFileText("p", x.Decls()), nil, nil, x)
+			ecDone.Add(1)
+		}
 		lm := locals[len(locals)*2/3]
 		res.Sample(map[string]any{"key": lm.Key(), "source": lm.Source()})
 		mid := gis[len(gis)*3/4]
@@ -956,6 +977,8 @@ func TestVerifC07(t *testing.T) {
 	res.Count("generic_interface_family_packages", giDone.Load())
 	res.Count("local_declaration_family_packages", localDone.Load())
 	res.Count("same_print_interface_family_packages", spDone.Load())
+	res.Count("basic_alias_name_family_packages", baDone.Load())
+	res.Count("embedding_cycle_family_packages", ecDone.Load())
 	res.Count("generated_packages", specs)
 	res.Count("generated_edge_sets_inadmissible", inadm)
 	res.Count("generated_edge_sets_noncanonical(renaming)", noncanon)
